@@ -198,6 +198,12 @@ func genSizedGlyf(run *v.Run, r *v.Rand, tier string) {
 	}
 }
 
+// DegenerateLayouts: GSUB / GPOS / GDEF values that are present and (partly)
+// empty (see installLayout), alone and combined with each other and with
+// ordinary tables.
+var DegenerateLayouts = []string{"S", "N", "Z", "T", "F", "L", "P", "M", "Q", "R", "K", "D", "E",
+	"SPD", "NME", "ZQ", "TQD", "LR", "FK", "dS", "dP", "sP", "sQ", "pS", "pN", "pT", "sdM", "TE"}
+
 func genCycles(run *v.Run, r *v.Rand, tier string) {
 	genSizedGlyf(run, r.Fork("glyfsize"), tier)
 	n := v.Count(tier, 700, 14000)
@@ -206,6 +212,15 @@ func genCycles(run *v.Run, r *v.Rand, tier string) {
 	layouts := []string{"-", "-", "-", "s", "d", "p", "sdp", "dp"}
 	for i := 0; i < n; i++ {
 		t := tpl{Name: v.Pick(r, names), Seed: r.Uint64() % 100000, CMap: v.Pick(r, cmaps), Layout: v.Pick(r, layouts)}
+		if i%3 == 1 {
+			// layout tables that are present and (partly) empty; half of them on
+			// fonts whose cmap holds the f-ligatures and their components, so
+			// that Read would synthesise a GSUB table if the table were missing
+			t.Layout = v.Pick(r, DegenerateLayouts)
+			if r.Chance(1, 2) {
+				t.CMap = "f4lig"
+			}
+		}
 		if t.Name == "go" {
 			if tier != "thorough" && i%3 != 0 {
 				t.Name = "glyfmini"
@@ -242,6 +257,15 @@ func genCycles(run *v.Run, r *v.Rand, tier string) {
 }
 
 // ---- clause (b): byte strings ----
+
+// HeaderOnlyLayout: GSUB / GPOS tables without any content: the 10-byte header
+// with three zero offsets, and headers whose offsets lead to empty lists.
+var HeaderOnlyLayout = [][]byte{
+	{0, 1, 0, 0, 0, 0, 0, 0, 0, 0},
+	{0, 1, 0, 0, 0, 10, 0, 0, 0, 0, 0, 0},
+	{0, 1, 0, 0, 0, 10, 0, 10, 0, 10, 0, 0},
+	{0, 1, 0, 0, 0, 10, 0, 12, 0, 14, 0, 0, 0, 0, 0, 0},
+}
 
 func fileSources() []source {
 	var out []source
@@ -388,7 +412,24 @@ func genMerges(run *v.Run, r *v.Rand, tier string) {
 		}
 		var edits []edit
 		for k := r.Range(1, 3); k > 0; k-- {
-			switch r.Intn(7) {
+			switch r.Intn(9) {
+			case 7:
+				// a layout table that is present and empty: header only (offsets
+				// 0), or offsets to empty lists; GPOS also next to a kern table
+				// (Read consults kern only without GPOS)
+				tag := v.Pick(r, []string{"GSUB", "GSUB", "GPOS"})
+				edits = append(edits, edit{Kind: "set", Tag: tag, Data: v.Pick(r, HeaderOnlyLayout)})
+				if tag == "GPOS" && r.Chance(1, 2) {
+					kt := kern.Info{{Left: 1, Right: 2}: funit.Int16(r.Range(-300, 300))}
+					edits = append(edits, edit{Kind: "set", Tag: "kern", Data: kt.Encode()})
+				}
+			case 8:
+				// GDEF without GSUB and GPOS
+				edits = append(edits, edit{Kind: "set", Tag: "GDEF", Data: v.Pick(r, [][]byte{
+					{0, 1, 0, 0, 0, 0, 0, 0, 0, 0, 0, 0},
+					{0, 1, 0, 0, 0, 12, 0, 0, 0, 0, 0, 0, 0, 2, 0, 0},
+					{0, 1, 0, 0, 0, 12, 0, 0, 0, 0, 0, 0, 0, 1, 0, 1, 0, 1, 0, 3}})},
+					edit{Kind: "drop", Tag: "GSUB"}, edit{Kind: "drop", Tag: "GPOS"})
 			case 0, 1:
 				edits = append(edits, edit{Kind: "drop", Tag: v.Pick(r, optional)})
 			case 2:
